@@ -190,9 +190,9 @@ theorem z8_nearest : ∀ r, r < 256 → ∀ g, g < 256 → BcSpec.zNearest r g (
 
 /-! ### the compiled driver evaluates exactly the model -/
 
-theorem memoGet_eq (n : Nat) (f : Nat → Nat) : Drv.memoGet f (Drv.memoTbl n f) = f := by
+theorem memoGet_eq (n : Nat) (f : Nat → Nat) : Drv.C03.memoGet f (Drv.C03.memoTbl n f) = f := by
   funext v
-  unfold Drv.memoGet Drv.memoTbl
+  unfold Drv.C03.memoGet Drv.C03.memoTbl
   simp only [Thunk.get]
   split
   · rename_i x h
@@ -206,13 +206,13 @@ theorem memoGet_eq (n : Nat) (f : Nat → Nat) : Drv.memoGet f (Drv.memoTbl n f)
 
 /-- the memoised f32 tables used by `driver C03` do not change the result -/
 theorem driver_fast_path_eq (f : Fmt) (pr : Prec) (blk : Nat → Nat) :
-    Bc.decodeBlockWith Drv.fastConv f pr blk = Bc.decodeBlock f pr blk := by
-  have h : Drv.fastConv = stdConv := by
-    unfold Drv.fastConv stdConv
+    Bc.decodeBlockWith Drv.C03.fastConv f pr blk = Bc.decodeBlock f pr blk := by
+  have h : Drv.C03.fastConv = stdConv := by
+    unfold Drv.C03.fastConv stdConv
     congr 1
-    · funext pr v; cases pr <;> simp [Drv.tblN8F32, memoGet_eq, Bc.widen]
-    · funext pr; cases pr <;> simp [Drv.tblN8F32, Drv.tblU6, Drv.tblU4, memoGet_eq, bc4uOps]
-    · funext pr; cases pr <;> simp [Drv.tblS8F32, Drv.tblS6, Drv.tblS4, memoGet_eq, bc4sOps]
+    · funext pr v; cases pr <;> simp [Drv.C03.tblN8F32, memoGet_eq, Bc.widen]
+    · funext pr; cases pr <;> simp [Drv.C03.tblN8F32, Drv.C03.tblU6, Drv.C03.tblU4, memoGet_eq, bc4uOps]
+    · funext pr; cases pr <;> simp [Drv.C03.tblS8F32, Drv.C03.tblS6, Drv.C03.tblS4, memoGet_eq, bc4sOps]
   rw [h]; rfl
 
 /-! ### non-vacuity: concrete blocks -/
